@@ -587,6 +587,27 @@ def independence_case(ctx, rng, idx):
             # within draws is not possible; posterior rows here differ by
             # 1e-3 relative, far below the noise
             pairs = [(a, b, 'outputs across posterior samples')]
+        elif (idx // 7) % 2 == 1:
+            from checks import c13
+            fp = c13.FPCase(rng, int(rng.integers(1000)))
+            fp.prior_mu = fp.point(rng)[:fp.n_top]
+            fp.prior_sd = np.full(fp.n_top, 0.01)
+            post = fp.build()
+            init = np.asarray(post.sample_initial_parameters(
+                n_samples=4, seed=seed), dtype=float)
+            ctx.count('stream_independence_tests')
+            feats['posterior'] = 'population filter'
+            n_eps = fp.n_s * fp.n_out * fp.n_times
+            eps = init[:, init.shape[1] - n_eps:]
+            if init.shape != (4, post.n_parameters()):
+                ctx.violation('initial_parameter_shape', 'initial_shape',
+                              {'shape': init.shape}, feats)
+            elif len(np.unique(eps)) < eps.size:
+                ctx.violation('streams_are_independent',
+                              'identical_noise_in_initial_points',
+                              {'distinct values': int(len(np.unique(eps))),
+                               'values': int(eps.size)}, feats)
+            return
         else:
             from checks import c02
             case = c02.make_enumerated(rng, int(rng.integers(3000)),
